@@ -249,7 +249,17 @@ def integral_spec(ctx, cls: str, rule: str = 'R10.1') -> List[Ob]:
                      f"found {[C.show(r[0]) for r in gp.results if r[0] is not None]}\nexpected {C.show(want)}", 'indices')
             except (Inconclusive, C.CanonError) as e:
                 obs.append(inconclusive(rule, f"{g.name}: paths enumerable", g.loc(), str(e), construct=_fn(g)))
-        # single interval: same slice for value and multiplicity
+        # single interval: every path returns (sum of y[S:E], sum of mp[S:E]) with (S, E) = get_indices(interval)
+        gi_call = call(fi.name.split('.')[-1] + '.get_indices' if False else 'get_indices', A('interval'))
+        S_, E_ = C.atom(('proj', gi_call, 0)), C.atom(('proj', gi_call, 1))
+        want_single = C.atom(('tuple', (call('np.sum', sl(y, S_, E_)), call('np.sum', sl(m, S_, E_)))))
+        singles = [r for r in _pick(mp.results, [C.mk_not(none)]) if r[0] is not None and
+                   not any('after-loop' in C.show(x) for x in [r[0]])]
+        bad = [r for r in singles if r[0] != want_single]
+        _req(obs, rule, fi, "single interval: on every path the result is (sum of values, sum of multiplicities) over the index range "
+             "returned by get_indices(interval) - nothing is substituted afterwards",
+             bool(singles) and not bad, f"found {[C.show(r[0]) for r in bad][:2]}\nexpected {C.show(want_single)}", 'single-interval',
+             bad[0][4] if bad else None)
         for r in _pick(mp.results, [C.mk_not(none)]):
             v = r[0]
             sa = C.single_atom(v) if v is not None and C.is_poly(v) else v
@@ -666,4 +676,127 @@ def add_value_rules(ctx, eng, rule: str = 'R09.5') -> List[Ob]:
                         obs.append(ok('R11.1', t, k.loc(), construct=f"{fn}::edge::{n_path}"))
                     else:
                         obs.append(violation('R11.1', t, k.loc(), key=f"{fn}::edge-fixup", detail=str([(key, C.show(r[2])) for key, r in fix])))
+    return obs
+
+
+# ======================================================================================
+# DiscreteFunc.get_plottable_data: multiplicity-aware smoothing (R11.5)
+# ======================================================================================
+def plottable_discrete_spec(ctx, rule: str = 'R11.5') -> List[Ob]:
+    repo = ctx.repo
+    obs: List[Ob] = []
+    fi = repo.func('pyspike.DiscreteFunc', 'DiscreteFunc.get_plottable_data')
+    fn = _fn(fi)
+    ps = [a.arg for a in fi.node.args.args]
+    if len(ps) < 2:
+        return [inconclusive(rule, f"{fi.name}: has an averaging window parameter", fi.loc(), construct=fn)]
+    kname = ps[1]
+    env = Env()
+    x, y, m = attr('self', 'x'), attr('self', 'y'), attr('self', 'mp')
+    top_ifs = [s for s in fi.node.body if isinstance(s, ast.If)]
+    if len(top_ifs) != 1 or not top_ifs[0].orelse:
+        return [inconclusive(rule, f"{fi.name}: one top-level branch on the window size", fi.loc(), construct=fn)]
+    top = top_ifs[0]
+    try:
+        c = C.canon_cond(top.test, env)
+    except C.CanonError as e:
+        return [inconclusive(rule, f"{fi.name}: window test canonicalisable", fi.loc(), str(e), construct=fn)]
+    _req(obs, rule, fi, "smoothing is applied exactly when the window size is positive", c == C.mk_cmp('gt', A(kname), C.ZERO), C.show(c), 'window-test', top)
+    # k = 0: values divided by multiplicities
+    rets = [s for s in top.orelse if isinstance(s, ast.Return)]
+    good = False
+    if rets:
+        rv = C.canon_expr(rets[0].value, env)
+        good = rv == C.atom(('tuple', (x, C.div(y, m))))
+    _req(obs, rule, fi, "without smoothing the plotted values are the values divided by their multiplicities (time axis unchanged)", good,
+         ast.unparse(rets[0].value) if rets else 'no return', 'k0', rets[0] if rets else top)
+    body = top.body
+    # expected multiplicity
+    exp_asg = [s for s in body if isinstance(s, ast.Assign) and isinstance(s.targets[0], ast.Name)]
+    loops = [s for s in body if isinstance(s, ast.For)]
+    if not exp_asg or len(loops) != 1:
+        obs.append(inconclusive(rule, f"{fi.name}: window branch has the expected-multiplicity assignment and one loop over the entries", fi.loc(top), construct=fn))
+        return obs
+    ename = exp_asg[0].targets[0].id
+    ev = C.canon_expr(exp_asg[0].value, env)
+    want_e = C.mul(C.add(A(kname), C.ONE), call('int', sub_(m, C.ZERO)))
+    _req(obs, rule, fi, "wanted multiplicity is (k+1) profiles' worth: (k+1) * mp[0]", ev == want_e, C.show(ev), 'expected-mp', exp_asg[0])
+    lp = loops[0]
+    i = lp.target.id if isinstance(lp.target, ast.Name) else 'i'
+    E = A(ename)
+    yi, mi_ = sub_(y, A(i)), sub_(m, A(i))
+    # early exit
+    early = [s for s in lp.body if isinstance(s, ast.If) and any(isinstance(z, ast.Continue) for z in s.body)]
+    good = False
+    detail = ''
+    out_arr = None
+    if len(early) == 1:
+        ce = C.canon_cond(early[0].test, env)
+        st = [z for z in early[0].body if isinstance(z, ast.Assign) and isinstance(z.targets[0], ast.Subscript)]
+        if st:
+            out_arr = ast.unparse(st[0].targets[0].value)
+            v = C.canon_expr(st[0].value, env)
+            good = ce == C.mk_cmp('ge', mi_, E) and v == C.div(yi, mi_) and ast.unparse(st[0].targets[0].slice) == i
+            detail = f"if {C.show(ce)}: {ast.unparse(st[0])}"
+    _req(obs, rule, fi, "an entry that already carries the wanted multiplicity is plotted as the mean of its own unit contributions y[i]/mp[i]",
+         good, detail, 'early-exit', early[0] if early else lp)
+    # final normalisation
+    finals = [s for s in lp.body if isinstance(s, ast.Assign) and isinstance(s.targets[0], ast.Subscript) and
+              ast.unparse(s.targets[0].value) == (out_arr or 'y_plot')]
+    whiles = [s for s in lp.body if isinstance(s, ast.While)]
+    if len(whiles) != 2 or not finals:
+        obs.append(inconclusive(rule, f"{fi.name}: right scan, left scan and final normalisation found", fi.loc(lp), construct=fn))
+        return obs
+    # accumulators: the names initialised from mp[i] before each scan
+    inits = {s.targets[0].id: s.value for s in lp.body if isinstance(s, ast.Assign) and isinstance(s.targets[0], ast.Name)}
+    accs = [n for n, v in inits.items() if C.canon_expr(v, env) == mi_]
+    ysum = [n for n, v in inits.items() if C.canon_expr(v, env) == yi]
+    fv = C.canon_expr(finals[-1].value, env)
+    good = len(accs) == 2 and len(ysum) == 1 and fv == C.div(A(ysum[0]), C.sub(C.add(A(accs[0]), A(accs[1])), mi_))
+    _req(obs, rule, fi, "the plotted value is the accumulated value divided by the accumulated multiplicity (right + left - own, the entry itself "
+         "is counted once)", good, ast.unparse(finals[-1]), 'final', finals[-1])
+    if len(accs) == 2 and len(ysum) == 1:
+        Y = ysum[0]
+        for w, tag in zip(whiles, ('right', 'left')):
+            jn = None
+            for s in lp.body:
+                if isinstance(s, ast.Assign) and isinstance(s.targets[0], ast.Name) and s.lineno < w.lineno:
+                    v = C.canon_expr(s.value, env)
+                    if v in (C.add(A(i), C.ONE), C.sub(A(i), C.ONE)):
+                        jn, jv = s.targets[0].id, v
+            acc = None
+            for a_ in accs:
+                if any(isinstance(z, ast.Name) and z.id == a_ for z in ast.walk(w)):
+                    acc = a_
+            ifs = [s for s in w.body if isinstance(s, ast.If)]
+            good = False
+            detail = ''
+            if jn and acc and len(ifs) == 1 and ifs[0].orelse:
+                J = A(jn)
+                yj, mj = sub_(y, J), sub_(m, J)
+                cw = C.canon_cond(ifs[0].test, env)
+                want_c = C.mk_cmp('lt', C.add(A(acc), mj), E)
+
+                def upd(stmts):
+                    e2 = Env()
+                    side = Side(fi)
+                    pe = PathExec(side)
+                    for z in stmts:
+                        if isinstance(z, (ast.Assign, ast.AugAssign)):
+                            pe.cmp.exec_simple(z, e2, Region(), side)
+                    return C.to_poly(e2.get(Y)), C.to_poly(e2.get(acc)), any(isinstance(z, ast.Break) for z in stmts)
+                y1_, a1_, b1_ = upd(ifs[0].body)
+                y2_, a2_, b2_ = upd(ifs[0].orelse)
+                whole_ok = y1_ == C.add(A(Y), yj) and a1_ == C.add(A(acc), mj) and not b1_
+                frac = C.div(C.mul(yj, C.sub(E, A(acc))), mj)
+                part_ok = y2_ == C.add(A(Y), frac) and a2_ == E and b2_
+                step = [z for z in w.body if isinstance(z, ast.AugAssign) and isinstance(z.target, ast.Name) and z.target.id == jn]
+                dirn = (isinstance(step[0].op, ast.Add) if tag == 'right' else isinstance(step[0].op, ast.Sub)) if step else False
+                wc = C.canon_cond(w.test, env)
+                bound_ok = (wc == C.mk_cmp('lt', J, ln(A(out_arr or 'y_plot'))) or wc == C.mk_cmp('lt', J, ln(y))) if tag == 'right' else wc == C.mk_cmp('ge', J, C.ZERO)
+                start_ok = jv == (C.add(A(i), C.ONE) if tag == 'right' else C.sub(A(i), C.ONE))
+                good = cw == want_c and whole_ok and part_ok and dirn and bound_ok and start_ok
+                detail = f"cond ok={cw == want_c} whole={whole_ok} fraction+stop={part_ok} step={dirn} bound={bound_ok} start={start_ok}"
+            _req(obs, rule, fi, f"{tag} scan: neighbours are taken whole while the wanted multiplicity is not reached, the last one with the "
+                 f"fraction (wanted - reached)/mp[j] of its value, then the scan stops", good, detail, f'scan-{tag}', w)
     return obs
